@@ -7,6 +7,8 @@
 #include <cstring>
 #include <iostream>
 #include <memory>
+#include <mutex>
+#include <condition_variable>
 #include <sstream>
 #include <string>
 #include <thread>
@@ -39,6 +41,19 @@ template <class F, class R> static bool probe(F f, R release) {
     return returned;
 }
 
+// run f on a helper thread and wait for it (no polling); if it does not return within HANG_MS the model was wrong about
+// the guard (or the implementation blocks for ever): release it and report
+static int HANG_MS = 1500;
+template <class F, class R> static bool guarded(F f, R release) {
+    std::mutex m; std::condition_variable cv; bool done = false;
+    std::thread t([&] { f(); std::lock_guard<std::mutex> l(m); done = true; cv.notify_all(); });
+    bool ok;
+    { std::unique_lock<std::mutex> l(m); ok = cv.wait_for(l, std::chrono::milliseconds(HANG_MS), [&] { return done; }); }
+    if (!ok) release();
+    t.join();
+    return ok;
+}
+
 static std::string do_useq(const std::string& ops) {
     UncompressedFile u; std::string out;
     for (const std::string& op : split(ops, ';')) {
@@ -48,14 +63,17 @@ static std::string do_useq(const std::string& ops) {
         if (k == "new") { }
         else if (k == "w") { std::vector<uint8_t> b = unhex(a.size() > 1 ? a[1] : "");
             auto f = [&] { u.write(reinterpret_cast<const char*>(b.data()), std::streamsize(b.size())); };
-            if (pr) { r = probe(f, [&] { u.abort(); }) ? "u returned" : "u block"; out += (out.empty() ? "" : " | ") + r; break; } f(); }
+            if (pr) { r = probe(f, [&] { u.abort(); }) ? "u returned" : "u block"; out += (out.empty() ? "" : " | ") + r; break; }
+            if (!guarded(f, [&] { u.abort(); })) { out += (out.empty() ? "" : " | ") + std::string("u hang"); break; } }
         else if (k == "wc") { auto lc = std::make_shared<LogContainer>(); std::vector<uint8_t> b = unhex(a.size() > 2 ? a[2] : "");
             lc->uncompressedFile.assign(b.begin(), b.end()); lc->uncompressedFileSize = uint32_t(strtoul(a[1].c_str(), nullptr, 10));
             auto f = [&] { u.write(lc); };
-            if (pr) { r = probe(f, [&] { u.abort(); }) ? "u returned" : "u block"; out += (out.empty() ? "" : " | ") + r; break; } f(); }
+            if (pr) { r = probe(f, [&] { u.abort(); }) ? "u returned" : "u block"; out += (out.empty() ? "" : " | ") + r; break; }
+            if (!guarded(f, [&] { u.abort(); })) { out += (out.empty() ? "" : " | ") + std::string("u hang"); break; } }
         else if (k == "r") { long n = strtol(a[1].c_str(), nullptr, 10); std::vector<uint8_t> b(size_t(n > 0 ? n : 0) + 1, 0xCD);
             auto f = [&] { u.read(reinterpret_cast<char*>(b.data()), n); };
-            if (pr) { r = probe(f, [&] { u.abort(); }) ? "u returned" : "u block"; out += (out.empty() ? "" : " | ") + r; break; } f();
+            if (pr) { r = probe(f, [&] { u.abort(); }) ? "u returned" : "u block"; out += (out.empty() ? "" : " | ") + r; break; }
+            if (!guarded(f, [&] { u.abort(); })) { out += (out.empty() ? "" : " | ") + std::string("u hang"); break; }
             long g = long(u.gcount()); r += "bytes=" + to_hex(b.data(), size_t(g > 0 ? g : 0)) + " "; }
         else if (k == "demand") {   // demand:<n>:w:<hex> | demand:<n>:wc:<size>:<hex> : a read of n blocks, then a write is tried
             long n = strtol(a[1].c_str(), nullptr, 10); std::vector<uint8_t> rb(size_t(n > 0 ? n : 0) + 1, 0xCD);
@@ -94,11 +112,13 @@ static std::string do_qseq(const std::string& ops) {
         bool pr = a[0].rfind("probe-", 0) == 0; std::string k = pr ? a[0].substr(6) : a[0];
         if (k == "new") { }
         else if (k == "r") { ObjectHeaderBase* o = nullptr; auto f = [&] { o = q.read(); };
-            if (pr) { r = probe(f, [&] { q.abort(); }) ? "q returned" : "q block"; delete o; out += (out.empty() ? "" : " | ") + r; break; } f();
+            if (pr) { r = probe(f, [&] { q.abort(); }) ? "q returned" : "q block"; delete o; out += (out.empty() ? "" : " | ") + r; break; }
+            if (!guarded(f, [&] { q.abort(); })) { out += (out.empty() ? "" : " | ") + std::string("q hang"); break; }
             if (o) { r += " ret=" + std::to_string(o->objectSize); delete o; } else r += " ret=null"; }
         else if (k == "w") { ObjectHeaderBase* o = new ObjectHeaderBase(1, ObjectType::UNKNOWN); o->objectSize = uint32_t(strtoul(a[1].c_str(), nullptr, 10));
             auto f = [&] { q.write(o); };
-            if (pr) { r = probe(f, [&] { q.abort(); }) ? "q returned" : "q block"; out += (out.empty() ? "" : " | ") + r; break; } f(); }
+            if (pr) { r = probe(f, [&] { q.abort(); }) ? "q returned" : "q block"; out += (out.empty() ? "" : " | ") + r; break; }
+            if (!guarded(f, [&] { q.abort(); })) { out += (out.empty() ? "" : " | ") + std::string("q hang"); break; } }
         else if (k == "abort") q.abort();
         else if (k == "sfs") q.setFileSize(uint32_t(strtoul(a[1].c_str(), nullptr, 10)));
         else if (k == "sbs") q.setBufferSize(uint32_t(strtoul(a[1].c_str(), nullptr, 10)));
